@@ -10,6 +10,7 @@ IonSet.__getitem__, PeriodicTable.symbol/name/isotope and the four _make_*
 restorers, so they also judge the calls made internally by pickle/copy and by
 change_table."""
 import copy
+import random
 import pickle
 
 RULE = ('one "element" case per (table variant, Z): the element, each of its isotopes, each of its ions and each of its '
@@ -414,6 +415,7 @@ def setup(ctx):
         for what, n in STATED.items():
             ctx.require('census.public.' + what, n, 'the public table must have been seen to hold the %d %s the property names'
                         % (n, what))
+        ctx.require('held.atoms', 1, 'atoms kept across a sweep of all other ions must have been re-identified')
         ctx.require('swept.public.element', 119, 'every element of the public table')
         ctx.require('swept.public.isotope', 2940, 'every isotope of the public table')
         ctx.require('swept.public.element_ion', 499, 'every element ion of the public table')
@@ -1276,8 +1278,67 @@ def check_move(ctx, case):
     ctx.count('moved.formulas')
 
 
+def check_held(ctx, case):
+    """Identity over a long run: a handful of atoms (ions, isotope ions, isotopes) are taken and kept; then EVERY ion
+    and isotope ion of the table and of a second table is looked up once (some 30 000 objects); afterwards each kept
+    atom is still the one object its table serves - by lookup, by pickle round trip and by deepcopy."""
+    import copy
+    rng = random.Random(case['seed'])
+    M = _s['model']
+    tabs = [(v, _table(v)) for v in case['tables']]
+    held = []
+    for v, T in tabs:
+        for _ in range(case['n']):
+            Z = rng.choice([z for z in M.zs if z > 0])
+            el = T[Z]
+            isos = _isotopes(v, Z)
+            kind = rng.choice(['ion', 'isoion', 'isoion', 'iso'])
+            if kind == 'ion' and el.ions:
+                q = rng.choice(el.ions)
+                held.append((v, T, (Z, 0, q), el.ion[q]))
+            elif kind == 'isoion' and el.ions and isos:
+                A, q = rng.choice(isos), rng.choice(el.ions)
+                held.append((v, T, (Z, A, q), el[A].ion[q]))
+            elif isos:
+                A = rng.choice(isos)
+                held.append((v, T, (Z, A, 0), el[A]))
+    swept = 0
+    for v, T in tabs:
+        for Z in M.zs:
+            el = T[Z]
+            for q in el.ions:
+                el.ion[q]
+                swept += 1
+            for A in _isotopes(v, Z):
+                iso = el[A]
+                for q in el.ions:
+                    iso.ion[q]
+                    swept += 1
+    ctx.count('held.swept_ions', swept)
+    for v, T, (Z, A, q), obj in held:
+        again = T[Z]
+        if A:
+            again = again[A]
+        if q:
+            again = again.ion[q]
+        ctx.evaluated(3, 'held-identity')
+        ctx.count('held.atoms')
+        what = '%s table: %r kept while %d other ions were looked up' % (v, obj, swept)
+        if again is not obj:
+            ctx.violation('%s: the table now serves another object for (Z, A, charge) = %r' % (what, (Z, A, q)),
+                          route='lookup', key=[Z, A, q])
+            continue
+        back = pickle.loads(pickle.dumps(obj))
+        if back is not obj:
+            ctx.violation('%s: its pickle round trip gives another object' % what, route='pickle', key=[Z, A, q])
+        dc = copy.deepcopy(obj)
+        if dc is not obj:
+            ctx.violation('%s: its deepcopy is another object (%r)' % (what, dc), route='deepcopy', key=[Z, A, q])
+    ctx.distinct_case(('held', tuple(case['tables'])))
+
+
 CHECKS = {'element': _guarded(check_element), 'invalid': _guarded(check_invalid),
-          'table': _guarded(check_table), 'move': _guarded(check_move)}
+          'table': _guarded(check_table), 'move': _guarded(check_move), 'held': _guarded(check_held)}
 
 
 # ------------------------------------------------------------------ workload
@@ -1312,6 +1373,9 @@ def generate(ctx):
                 yield 'invalid', {'table': variant, 'Z': Z, 'stride': stride,
                                   'offset': (Z + ctx.seed) % max(stride, 1)}
             i += 1
+    if ctx.mine(i):
+        yield 'held', {'tables': ['public', 'private'], 'n': 40, 'seed': ctx.rng.randrange(1 << 30)}
+    i += 1
     pairs = [('public', 'private'), ('private', 'public'), ('private', 'private')]
     if ctx.thorough():
         pairs += [('private', 'private_late'), ('private_late', 'private'), ('public_loaded', 'private_late'),
